@@ -55,6 +55,8 @@ func (p planned) run() *result {
 		return runRawServer(p.ID, v, c, p.Auth, p.Reqs, *p.Script)
 	case "oversize":
 		return probeOversizeSend(v, p.N)
+	case "lowercase":
+		return probeLowercase(v)
 	}
 	panic("unknown mode " + p.Mode)
 }
@@ -261,9 +263,6 @@ func buildPlan(tier string, seed int64) []planned {
 				continue
 			}
 			for _, auth := range []bool{false, true} {
-				if !thorough && auth != (i%2 == 1) && !(v == v5 && c == primitive.CompressionNone) {
-					continue // quick tier: alternate authentication, both for v5 without compression
-				}
 				big := 200000
 				if v.SupportsModernFramingLayout() {
 					big = 100000 // an envelope must fit one segment to be SENT by this library (see the oversize probe)
@@ -282,6 +281,7 @@ func buildPlan(tier string, seed int64) []planned {
 		}
 	}
 	add(planned{ID: "oversize-send-v5", Mode: "oversize", Version: 5, N: 140000})
+	add(planned{ID: "lowercase-compression-v4", Mode: "lowercase", Version: 4})
 
 	// (b) raw peer, legacy layout: frames back to back, chunked writes
 	j := 0
